@@ -48,7 +48,8 @@ enum {
   K_LOCKREQ = 201, K_LOCKED = 202, K_LOADED = 203, K_BWRITTEN = 204, K_ASSIGNED = 205, K_FWRITTEN = 206,
   K_RELEASED = 207, K_WOPEN = 210, K_WREC = 211,
   // raised by this driver
-  K_START = 219, K_REQ = 220, K_TOOK = 221, K_EVALED = 222, K_JOIN = 223, K_ENDED = 224, K_DONE = 225, K_ABORT = 226
+  K_START = 219, K_REQ = 220, K_TOOK = 221, K_EVALED = 222, K_JOIN = 223, K_ENDED = 224, K_DONE = 225, K_ABORT = 226,
+  K_SPAWN = 227  // master is about to start worker thread arg
 };
 
 // ---- read-only access to the observer's private state (explicit-instantiation idiom) -------------
@@ -153,18 +154,22 @@ static void connect_thread() {
 }
 
 extern "C" void votca_verif_event(int kind, const void *obj, long arg) {
-  if (kind < 200) return;  // tools::Mutex / tools::Thread yield points: not used by this engine
+  // tools::Mutex lock request / unlock (the observer's thread mutex) are forwarded so that the coordinator's mutex
+  // model follows the real events; the tools::Thread yield points are not used by this engine
+  bool mutex_ev = (kind == VV_LOCK_REQ || kind == VV_UNLOCK);
+  if (kind < 200 && !mutex_ev) return;
   if (kind == K_ASSIGNED) g_stale_next = true;
   if (kind == K_TOOK || kind == K_ENDED) g_stale_next = false;
   if (g_sock.empty()) return;
   if (t_fd < 0) connect_thread();
   std::ostringstream m;
   m << "{\"p\":" << g_alias << ",\"t\":" << t_index << ",\"pid\":" << getpid() << ",\"tid\":" << (long)syscall(SYS_gettid) << ",\"k\":" << kind << ",\"a\":" << arg;
+  if (mutex_ev) m << ",\"m\":\"" << obj << "\"";
   if (kind == K_WOPEN || kind == K_WREC) {
     std::string f = (const char *)obj;
     m << ",\"bak\":" << ((!f.empty() && f.back() == '~') ? "true" : "false");
   }
-  if (kind != K_WREC) m << ",\"s\":" << obs_json();
+  if (kind != K_WREC && !mutex_ev) m << ",\"s\":" << obs_json();
   m << "}\n";
   std::string msg = m.str();
   size_t off = 0;
@@ -290,7 +295,10 @@ static int worker_main(int argc, char **argv) {
       ops.push_back(std::make_unique<Worker>(i + 1, maverick, calc, seed * 1000 + (unsigned long)i));
       ops.back()->getLogger().setReportLevel(votca::Log::error);
     }
-    for (auto &w : ops) w->Start();
+    for (size_t i = 0; i < ops.size(); ++i) {
+      votca_verif_event(K_SPAWN, nullptr, (long)i + 1);
+      ops[i]->Start();
+    }
     votca_verif_event(K_JOIN, nullptr, 0);
     for (auto &w : ops) w->WaitDone();
     ops.clear();
